@@ -121,10 +121,11 @@ def _solve_one(job):
             if len(sub) >= len(asserts):
                 continue
             s1 = z3.Solver()
-            s1.set("timeout", min(1500, timeout_ms))
-            s1.set("rlimit", 4000000)
             s1.add(*sub)
-            if s1.check() == z3.unsat:
+            # every solver call is a separate process with a hard limit: z3's soft timeout /
+            # rlimit are not always honoured inside nonlinear arithmetic
+            r1, _m, _why = _z3_cli(s1.to_smt2(), 2, want_model=False)
+            if r1 == "unsat":
                 return idx, "unsat", None, time.time() - t0, "z3(%s)" % label
         # second solver early: cvc5 decides in well under a second several quantified
         # obligations (minimum == recurrence) that z3 only finds late or not at all
@@ -147,7 +148,7 @@ Z3_CLI = "/usr/local/bin/z3-new"
 _DEF = None
 
 
-def _z3_cli(text, tlimit_s, seed=None):
+def _z3_cli(text, tlimit_s, seed=None, want_model=True):
     """-> (status, model dict | None, reason)"""
     import re
     os.makedirs(WORK, exist_ok=True)
@@ -155,7 +156,7 @@ def _z3_cli(text, tlimit_s, seed=None):
     try:
         with os.fdopen(fd, "w") as f:
             body = text.replace("(check-sat)", "")
-            f.write(body + "\n(check-sat)\n(get-model)\n")
+            f.write(body + "\n(check-sat)\n" + ("(get-model)\n" if want_model else ""))
         args = [Z3_CLI, "-smt2", "-T:%d" % tlimit_s, path]
         if seed is not None:
             args.insert(1, "smt.random_seed=%d" % seed)
@@ -323,18 +324,17 @@ def _solve_retry(job):
         s = z3.Solver()
         s.from_string(text)
         s2 = z3.Solver()
-        s2.set("timeout", 8000)
-        s2.set("rlimit", 20000000)
         for a in s.assertions():
             if not _has_quantifier(a, None):
                 s2.add(a)
-        r2 = s2.check()
-        model = None
-        if r2 == z3.sat:
-            model = _model_dict(s2.model())
+        r2, model, _why = _z3_cli(s2.to_smt2(), 8)
+        if r2 == "sat":
+            model = model or {}
             model["_relaxed"] = "candidate from the quantifier-free relaxation (may be spurious)"
-        elif r2 == z3.unsat:
+        elif r2 == "unsat":
             return idx, "unsat", None, time.time() - t0, "z3(qf-relaxation)"
+        else:
+            model = None
         return idx, "unknown", model or {"reason": reason}, time.time() - t0, "z3(retry)"
     except Exception as exc:
         return idx, "unknown", {"reason": "z3 exception %r" % (exc,)}, time.time() - t0, "z3(retry)"
@@ -343,11 +343,8 @@ def _solve_retry(job):
 def _sat_one(job):
     idx, text, timeout_ms = job
     try:
-        s = z3.Solver()
-        s.set("timeout", timeout_ms)
-        s.from_string(text)
-        r = s.check()
-        return idx, str(r)
+        r, _m, _why = _z3_cli(text, max(1, timeout_ms // 1000), want_model=False)
+        return idx, r
     except Exception:
         return idx, "unknown"
 
